@@ -369,6 +369,73 @@ func (s *State) contractCall(call *ssa.Call, sp *FuncSpec, fn *ssa.Function, sig
 		return env
 	}
 	pre := mkEnv(s.Heap, s.Cells, s.Ghost)
+	// a function value passed where a function type with a contract is expected must come with a contract that
+	// `implements` it (the callee assumes that contract at its calls through the parameter)
+	{
+		off := 0
+		if sig.Recv() != nil || invoke {
+			off = 1
+		}
+		for j := 0; j < sig.Params().Len(); j++ {
+			ft := c.funcTypeSpec(sig.Params().At(j).Type())
+			if ft == nil {
+				// a parameter the callee's contract binds to a function contract with `callspec`
+				pn := sig.Params().At(j).Name()
+				if fn != nil && off+j < len(fn.Params) {
+					pn = fn.Params[off+j].Name()
+				}
+				if spn, ok := sp.CallSpecs[pn]; ok {
+					ft = c.SS.Funcs["funcspec::"+spn]
+				}
+			}
+			if ft == nil || off+j >= len(args) {
+				continue
+			}
+			var afn *ssa.Function
+			switch v := args[off+j].(type) {
+			case *Closure:
+				afn = v.Fn
+			case *FuncRef:
+				afn = v.Fn
+			case string:
+				if cl, ok := closureReg[v]; ok {
+					afn = cl.Fn
+				}
+			}
+			want := strings.TrimPrefix(ft.Name, "funcspec ")
+			ok := false
+			if afn != nil {
+				if asp := c.SS.specFor(afn); asp != nil && asp.Implements == want {
+					ok = true
+				}
+			} else if pn := paramNameOf(call.Call.Args[j]); pn != "" && (c.funcTypeSpec(call.Call.Args[j].Type()) == ft || c.Spec.CallSpecs[pn] == want) {
+				ok = true // passed on from the caller's own parameter bound to the same function contract
+			}
+			if cl, isCl := args[off+j].(*Closure); isCl && ok {
+				// the closure's own preconditions speak about what it captured (and ghost state): they must hold
+				// where the closure is handed over (A-CAPTURE: and stay true until it is called)
+				asp := c.SS.specFor(cl.Fn)
+				cenv := &SpecEnv{S: s, C: c, Heap: s.Heap, Cells: s.Cells, Vars: map[string]TV{}, Pkg: c.pkgOf(cl.Fn), Ghost: s.Ghost}
+				for k, fv := range cl.Fn.FreeVars {
+					if k < len(cl.Bindings) {
+						if l, isLoc := cl.Bindings[k].(*Loc); isLoc {
+							t, ty := s.load(l)
+							cenv.Vars[fv.Name()] = c.mkTV(t, ty)
+						}
+					}
+				}
+				for ri, r := range asp.Requires {
+					s.obligeExpr(fmt.Sprintf("closure-pre#%d@%s#%d", ri+1, short0(name), occ), r.Src, c.posOf(call.Pos()), cenv, r.E, fmt.Sprintf("%s:%d: requires of the closure %s", r.File, r.Line, funcKey(cl.Fn)))
+				}
+				c.assume("A-CAPTURE: what a closure's preconditions say about its captured variables and the ghost state still holds when the closure is called")
+			}
+			goal := "false"
+			if ok {
+				goal = "true"
+			}
+			s.oblige(fmt.Sprintf("implements#%d@%s#%d", j+1, strings.TrimPrefix(name[strings.Index(name, "::")+1:], ":"), occ), "the function value passed for parameter "+sig.Params().At(j).Name()+" has a contract that implements "+want, c.posOf(call.Pos()), goal)
+		}
+	}
 	short := name
 	if j := strings.Index(name, "::"); j >= 0 {
 		short = name[j+2:]
@@ -986,4 +1053,11 @@ func (c *Ctx) isGlobalGhost(name string) bool {
 		}
 	}
 	return false
+}
+
+func short0(name string) string {
+	if j := strings.Index(name, "::"); j >= 0 {
+		return name[j+2:]
+	}
+	return name
 }
